@@ -35,6 +35,9 @@ PROGRAMS = [
     ("dim-str-array-2d", '10 DIM F$ ( 2 , 3 ) : F$ ( 1 , 2 ) = "X"'),
     ("dim-str-scalar", '10 DIM G$ : G$ = "X"'),
     ("dim-mixed", '10 DIM G$ , H ( 3 ) , F$ ( 4 ) : G$ = F$ ( 1 )'),
+    ("dim-repeated-str-scalar", '10 DIM G$ , H , G$ : G$ = "X"'),
+    ("dim-repeated-num-scalar", "10 DIM H , H : H = 1"),
+    ("dim-scalar-twice-two-statements", '10 DIM G$ : DIM G$ : G$ = "X"'),
     ("dim-two-statements", '10 DIM G$\n20 DIM H ( 5 )\n30 G$ = "X" : PRINT G$'),
     ("dim-two-statements-arrays", '10 DIM F$ ( 5 )\n20 DIM K$ ( 6 )\n30 F$ ( 1 ) = K$ ( 2 )'),
     ("dim-after-other-line", '10 A$ = "Y"\n20 DIM G$\n30 G$ = A$'),
